@@ -35,8 +35,9 @@ ASSUMPTIONS = [
     'server-mode buffers are stored by the harness (getBuffer/updateBuffer callbacks on a per-socket dict), as an application '
     'would; isolation is judged on the emitted line events only',
     'messages use the default utf-8 encoding; argument strings are valid Unicode without surrogates',
-    'an exception from the constructor or from bytes()/str() counts as a rejection (the statement allows it); a rejected '
-    'message must not produce a write event',
+    'an exception from the constructor or from bytes()/str() counts as a rejection (the statement allows it) unless every '
+    'argument is a non-empty string over [A-Za-z0-9#+!@.,_-] (inner spaces/colons allowed in the last one) or None; a '
+    'rejected message must not produce a write event',
     'the round-trip clause is evaluated for every argument list but only for commands/prefixes that are non-empty and contain '
     'no space (command also: no leading colon); parsed command is compared with str(message.command)',
 ]
@@ -51,7 +52,7 @@ IRC_REQUIRED = ['ctor_' + n for n in IRC_FUNCS] + [
     'irc_line_event_observed', 'irc_roundtrip_evaluated', 'irc_arg_with_space', 'irc_arg_with_colon', 'irc_arg_with_cr',
     'irc_arg_with_lf', 'irc_arg_with_nul', 'irc_arg_empty', 'irc_arg_non_ascii', 'irc_arg_bytes', 'irc_arg_none',
     'irc_hostile_command', 'irc_hostile_prefix', 'irc_prefix_nick_user_host', 'irc_late_args_mutation',
-    'irc_all_command_functions_called']
+    'irc_all_command_functions_called', 'irc_benign_call_serialised']
 REQUIRED = LINE_REQUIRED + IRC_REQUIRED
 REQUIRED_OBLIGATIONS = ['LINES', 'TAIL_HELD', 'ISOLATION', 'ONE_LINE', 'ROUNDTRIP']
 WORKER_TIMEOUT = {'quick': 300, 'thorough': 1500}
@@ -524,7 +525,9 @@ def run_irc_case(case):
     except Exception as e:
         marks.add('irc_rejected_by_constructor')
         res['rejected'] = type(e).__name__
-        oblig['ONE_LINE'] += 1      # satisfied by rejection
+        oblig['ONE_LINE'] += 1      # satisfied by rejection ...
+        if irc_benign(case):        # ... unless there was nothing to reject: "every command message serialises"
+            problems.append(('ONE_LINE', {'problem': 'a call with harmless arguments was rejected by the constructor', 'error': repr(e)}, 'benign-rejected'))
         return res
     res['stage'] = 'serialiser'
     own_args = list(msg.args)
@@ -554,6 +557,8 @@ def run_irc_case(case):
     except Exception as e:
         marks.add('irc_rejected_by_serialiser')
         res['rejected'] = type(e).__name__
+        if irc_benign(case):
+            problems.append(('ONE_LINE', {'problem': 'a message with harmless fields was rejected by bytes()/str()', 'error': repr(e)}, 'benign-rejected'))
     w = h['Rec']()
     h['IRC']().register(w)
     w.settle()
@@ -567,6 +572,8 @@ def run_irc_case(case):
         return res
     res['stage'] = 'serialised'
     marks.add('irc_serialised')
+    if irc_benign(case):
+        marks.add('irc_benign_call_serialised')
     if writes:
         marks.add('irc_write_event_observed')
     bad = one_line_problem(data, b'\n', b'\r', 'bytes(message)') or one_line_problem(text, '\n', '\r', 'str(message)')
@@ -650,6 +657,25 @@ def irc_marks(case, marks):
             marks.add('irc_hostile_command')
         if case.get('prefix') is not None and (case['prefix'] == '' or any(ch not in SAFE for ch in case['prefix'])):
             marks.add('irc_hostile_prefix')
+
+
+def irc_benign(case):
+    """nothing in the call that a serialiser could object to: non-empty arguments over SAFE (the last one may
+    contain inner spaces and colons), command/prefix over SAFE."""
+    if case['ctor'] != 'Message' and any(a is None for a in case.get('args', [])[:harness()['funcs'][case['ctor']][1]]):
+        return False    # None for a required parameter
+    vals = [a for a in list(case.get('args', [])) + list(case.get('late', [])) if a is not None]
+    for i, a in enumerate(vals):
+        a = _dec(a)
+        ok = SAFE | ({' ', ':', ')'} if i == len(vals) - 1 else set())
+        if a == '' or a[0] in ' :' or any(ch not in ok for ch in a):
+            return False
+    if case['ctor'] == 'Message':
+        if case['command'] == '' or any(ch not in SAFE for ch in case['command']):
+            return False
+        if case.get('prefix') is not None and (case['prefix'] == '' or any(ch not in SAFE for ch in case['prefix'])):
+            return False
+    return True
 
 
 def irc_nontrivial(case):
